@@ -63,9 +63,9 @@ fn param(rng: &mut Rng, size: u32) -> i64 {
 // one representative (or a few) per character class the code distinguishes
 const NARROW: &[u32] = &[0x61, 0x62, 0x63, 0x64, 0x65, 0x66, 0x67, 0x68, 0x41, 0x5a, 0x30, 0x7e, 0x20, 0x5f, 0x71, 0x78];
 const LATIN1: &[u32] = &[0xe9, 0xa0, 0xff, 0xb1, 0xe0];
-const ABOVE: &[u32] = &[0x436, 0x3b1, 0x2500];
+const ABOVE: &[u32] = &[0x436, 0x3b1, 0x2500, 0x263a, 0x2764];
 const WIDE: &[u32] = &[0x4e00, 0x65e5, 0x30b3];
-const COMBINING: &[u32] = &[0x336, 0x20dd];
+const COMBINING: &[u32] = &[0x336, 0x20dd, 0xfe0f]; // U+FE0F: a cluster whose string width differs from its first character's
 const ZEROWIDTH: &[u32] = &[0x200b];
 const UNPRINT: &[u32] = &[0x00, 0x01, 0x7f, 0x85];
 
